@@ -22,7 +22,6 @@ C15 = {
                                [SYM_CLOCK, "remaining time", "id (u64)", "body (u32)", TRACE]),
     "c15_request_rt_fixint": m("same, bincode fixed-width model", [SYM_CLOCK, "remaining time", "id", "body", TRACE]),
     "c15_request_rt_json": m("same, self-describing model (maps keyed by field name, externally tagged enum; trace context as array)", [SYM_CLOCK, "remaining time", "id", "body", TRACE]),
-    "c15_request_rt_mapjson": dict(m("same, every struct as a map", [SYM_CLOCK, "remaining time", "id", "body", TRACE]), thorough_only=True),
     "c15_request_array_body_varint": m("Request<[u8; 8]> body round trip", ["8 body bytes", "id", TRACE], covers=1),
     "c15_cancel_rt_varint": m("ClientMessage::Cancel round trip (varint model)", ["request id (u64)", TRACE]),
     "c15_cancel_rt_mapjson": dict(m("ClientMessage::Cancel round trip (self-describing model, all maps)", ["request id (u64)", TRACE]), thorough_only=True),
@@ -30,7 +29,6 @@ C15 = {
     "c15_response_ok_rt_varint": m("Response<u32> Ok round trip (varint model)", ["request id", "body"], covers=1),
     "c15_response_ok_rt_json": m("Response<u32> Ok round trip (self-describing model)", ["request id", "body"], covers=1),
     "c15_response_err_rt_varint": m("Response Err(ServerError) keeps its id and kind (varint model)", ["request id"], covers=1),
-    "c15_response_err_rt_json": dict(m("Response Err(ServerError) keeps its id and kind (self-describing model)", ["request id"], covers=1), thorough_only=True),
     "c15_errkind_rt_varint": m("ServerError kind table: 18 portable io::ErrorKinds exact, 21 other stable kinds -> Other; bincode-varint model (= shipped tokio_serde Bincode)",
                                ["kind: any of the 39 stable io::ErrorKind variants"], covers=3),
     "c15_errkind_rt_fixint": m("same, bincode fixed-width model", ["kind: any of 39"], covers=3),
